@@ -27,6 +27,25 @@ pub struct Baton {
     /// mirror of `Inner::current` that a running thread can read without the lock (usize::MAX = nobody)
     owner: std::sync::atomic::AtomicUsize,
     lock_handoffs: std::sync::atomic::AtomicU64,
+    /// thread i is inside the scheduler's own code (where it may wait for the scheduler's mutex): the
+    /// monitor must not mistake that for blocking on a lock of the code under test
+    in_sched: Vec<std::sync::atomic::AtomicBool>,
+}
+
+/// marks the current thread as being inside scheduler code for the guard's lifetime
+struct InSched<'a>(&'a std::sync::atomic::AtomicBool);
+
+impl<'a> InSched<'a> {
+    fn new(b: &'a Baton, tid: usize) -> InSched<'a> {
+        b.in_sched[tid].store(true, Ordering::SeqCst);
+        InSched(&b.in_sched[tid])
+    }
+}
+
+impl Drop for InSched<'_> {
+    fn drop(&mut self) {
+        self.0.store(false, Ordering::SeqCst);
+    }
 }
 
 struct Inner {
@@ -116,6 +135,7 @@ impl Baton {
             done: std::sync::atomic::AtomicBool::new(false),
             owner: std::sync::atomic::AtomicUsize::new(usize::MAX),
             lock_handoffs: std::sync::atomic::AtomicU64::new(0),
+            in_sched: (0..n).map(|_| std::sync::atomic::AtomicBool::new(true)).collect(),
         })
     }
 
@@ -165,6 +185,8 @@ impl Handle {
             g = b.cv.wait(g).unwrap();
         }
         self.gap.set(Baton::draw_gap(&mut g));
+        drop(g);
+        b.in_sched[self.tid].store(false, Ordering::SeqCst);
     }
 
     /// This thread is running although it does not hold the baton: the monitor took the baton away
@@ -173,6 +195,7 @@ impl Handle {
     #[cold]
     fn reacquire(&self) {
         let b = &self.baton;
+        let _mark = InSched::new(b, self.tid);
         let mut g = b.inner.lock().unwrap();
         g.blocked[self.tid] = false;
         g.steps += self.local_steps.replace(0);
@@ -265,6 +288,7 @@ impl Handle {
             return;
         }
         let b = self.baton.clone();
+        let _mark = InSched::new(&b, self.tid);
         let mut g = b.inner.lock().unwrap();
         g.steps += self.local_steps.replace(0);
         if let Some(to) = Self::pick_other(&mut g, self.tid) {
@@ -303,6 +327,7 @@ impl Handle {
             self.reacquire();
         }
         let b = self.baton.clone();
+        let _mark = InSched::new(&b, self.tid);
         let mut g = b.inner.lock().unwrap();
         g.steps += self.local_steps.replace(0) + 1;
         if g.opts.align {
@@ -348,6 +373,7 @@ impl Handle {
 
     fn finish(&self) {
         let b = &self.baton;
+        b.in_sched[self.tid].store(true, Ordering::SeqCst);
         let mut g = b.inner.lock().unwrap();
         g.steps += self.local_steps.replace(0);
         g.alive[self.tid] = false;
@@ -443,7 +469,8 @@ pub fn run_threads_opts<T: Send + 'static>(
                     // "pid (comm) S ..." - the state follows the closing parenthesis
                     st.rsplit(')').next().and_then(|r| r.trim_start().chars().next())
                 });
-                if cur.is_some() && cur == last && state == Some('S') {
+                let in_harness = cur.map(|c| b.in_sched[c].load(Ordering::SeqCst)).unwrap_or(true);
+                if cur.is_some() && cur == last && state == Some('S') && !in_harness {
                     sleeping += 1;
                 } else {
                     sleeping = 0;
